@@ -2388,6 +2388,7 @@ static int dense_find_pivot (
 	}
 	if (max_r == -1)
 	{
+		EGLPNUM_TYPENAME_EGlpNumClearVar (maxval);
 		return E_NO_PIVOT;
 	}
 
@@ -2399,6 +2400,7 @@ static int dense_find_pivot (
 	}
 	if (max_c == -1)
 	{
+		EGLPNUM_TYPENAME_EGlpNumClearVar (maxval);
 		return E_NO_PIVOT;
 	}
 	*p_r = max_r;
